@@ -2,6 +2,7 @@ package gnogo
 
 import (
 	"fmt"
+	"regexp"
 	"sort"
 	"strings"
 	"testing"
@@ -37,6 +38,12 @@ func progExec(ctx *vk.Ctx, c progCase) error {
 		infra("Go reference output malformed: %v\n%s", err, gr.Out)
 	}
 	res := runGno(gnoSrc)
+	if res.Crash != "" {
+		if rest, ok := knownCrash(ctx, res.Crash, c.Frags); ok {
+			return progExec(ctx, progCase{Frags: rest})
+		}
+		return fmt.Errorf("GnoVM crashed with a Go panic on a program that Go compiles and runs: %s\n--- gno source\n%s", res.Crash, numbered(gnoSrc))
+	}
 	if res.Rejected != "" {
 		if rest, ok := knownRejection(ctx, res.Rejected, c.Frags); ok {
 			return progExec(ctx, progCase{Frags: rest})
@@ -58,6 +65,9 @@ func progExec(ctx *vk.Ctx, c progCase) error {
 		}
 		if serr != nil && g == "" && res.Panic == "" {
 			continue // reported below
+		}
+		if knownMismatch(ctx, f, want[i]) {
+			continue
 		}
 		return fmt.Errorf("fragment %d: outputs differ\n--- go\n%s--- gno\n%s--- gno unhandled panic: %q\n--- first differing line: %s\n--- fragment source\n%s\nfunc frag() {\n%s\n}",
 			i, want[i], g, res.Panic, firstDiff(want[i], g), f.Decl, f.Body)
@@ -128,6 +138,53 @@ func knownRejection(ctx *vk.Ctx, msg string, frags []Frag) ([]Frag, bool) {
 		return rest, true
 	}
 	return nil, false
+}
+
+// knownCrash handles VM crashes recorded as known findings, consulted only
+// when the crash text is exactly the recorded one: the fragments that
+// individually crash with it are dropped, the rest is still compared.
+func knownCrash(ctx *vk.Ctx, crash string, frags []Frag) ([]Frag, bool) {
+	const msg = "unexpected block size shrinkage"
+	if !strings.HasPrefix(crash, msg) {
+		return nil, false
+	}
+	var rest []Frag
+	for _, f := range frags {
+		if strings.Contains(f.Body, "fallthrough") {
+			_, src := render([]Frag{f})
+			if r := runGno(src); strings.HasPrefix(r.Crash, msg) {
+				continue
+			}
+		}
+		rest = append(rest, f)
+	}
+	if len(rest) == len(frags) || !ctx.Known("fallthrough-after-clause-local-crashes-vm") {
+		return nil, false
+	}
+	return rest, true
+}
+
+var shiftAssignRE = regexp.MustCompile(`(?m)^(\s*)(\w+) (<<|>>)= (.*)$`)
+
+// knownMismatch handles output divergences recorded as known findings. It is
+// consulted at exactly that divergence: the fragment is rewritten so that it
+// avoids the construct (keeping its Go meaning), re-run alone on GnoVM, and
+// only when the rewritten fragment then prints what Go printed is the
+// mismatch attributed to the finding.
+func knownMismatch(ctx *vk.Ctx, f Frag, want string) bool {
+	// x <<= c with a count of a type other than uint reads stale high bytes of c
+	if shiftAssignRE.MatchString(f.Body) {
+		g := f
+		g.Body = shiftAssignRE.ReplaceAllString(f.Body, "$1$2 = $2 $3 $4")
+		_, gnoSrc := render([]Frag{g})
+		res := runGno(gnoSrc)
+		if res.Rejected == "" && res.Panic == "" && res.Crash == "" {
+			if got, err := split(res.Out, 1); err == nil && got[0] == want {
+				return ctx.Known("shift-assign-count-not-converted-to-uint")
+			}
+		}
+	}
+	return false
 }
 
 func firstDiff(a, b string) string {
